@@ -1447,6 +1447,9 @@ class RTCSctpTransport(AsyncIOEventEmitter):
         gap_next = None
         for tsn in sorted(self._sack_misordered):
             pos = (tsn - self._last_received_tsn) % SCTP_TSN_MODULO
+            if pos > 0xFFFF:
+                # too far ahead to be reported in a gap block
+                continue
             if tsn == gap_next:
                 gaps[-1][1] = pos
             else:
